@@ -61,21 +61,24 @@ Definition unavail_okb (c : cfg) (st st' : ast) : bool :=
           (a_pods st).
 
 (* ---------- clause 3: a job refused only for lack of headroom keeps waiting ----------
-   every job that was waiting before the round is afterwards either passed (annotation set,
-   marked, no longer waiting), or failed because its pod fails the non-retryable filter, or
-   exactly as before *)
+   every job that was waiting before the round is afterwards either passed (annotated, no longer
+   waiting, phase untouched), or failed because its pod fails the non-retryable filter, or exactly
+   as before (still waiting, phase and annotation untouched); a job object that does not exist in
+   the API is not judged.  Membership in the arbitrator's
+   in-memory map is not part of the property (it is only compared as an observable). *)
 Definition job_same (j j' : job) : bool :=
   Bool.eqb (j_api j) (j_api j') && (j_phase j =? j_phase j') && Bool.eqb (j_passed j) (j_passed j')
-  && Bool.eqb (j_waiting j) (j_waiting j') && Bool.eqb (j_arb j) (j_arb j').
+  && Bool.eqb (j_waiting j) (j_waiting j').
 
 Definition job_outcome_okb (c : cfg) (st : ast) (j j' : job) : bool :=
-  if negb (j_waiting j) then job_same j j'
+  if negb (j_api j) && negb (j_api j') then true   (* no such job in the API: nothing to judge *)
+  else if negb (j_waiting j) then job_same j j'
   else
     job_same j j'
     || (* passed *)
-       (j_api j' && j_passed j' && j_arb j' && negb (j_waiting j') && (j_phase j' =? j_phase j))
+       (j_api j' && j_passed j' && negb (j_waiting j') && (j_phase j' =? j_phase j))
     || (* failed: only for a pod that fails the non-retryable filter *)
-       (negb (j_waiting j') && Bool.eqb (j_passed j') (j_passed j) && Bool.eqb (j_arb j') (j_arb j)
+       (negb (j_waiting j') && Bool.eqb (j_passed j') (j_passed j)
         && ((j_phase j' =? 3) || (j_phase j' =? j_phase j))
         && match pod_of st j with Some p => negb (nonretryable c st p) | None => false end).
 
